@@ -10,7 +10,18 @@ ENGINE_NOTE = ("Bounded: 3-4 concurrent requests drawn from the palettes of Engi
 def eng(what):
     return {"category": "model_checking", "design_ref": "DESIGN.md §4 Engine family", "note": ENGINE_NOTE, "technique": ENGINE_TECH,
             "text": what + " Engine.tla models the Commander at the grain of its yield points (reference/idempotency reservations, lock manager, balance read, id allocation, chaining, batch hand-off, persistence, acknowledgement, publication, crash/restart); TLC checks it exhaustively for 3 (thorough: 4) requests, every negative design must be rejected, counterexample schedules and simulated behaviours are replayed on the real Commander with a gated store, and the property predicates (EngineProps.tla) are evaluated by TLC on the durable log, the responses and the published events actually produced."}
+NS_TECH = "TLA+ spec (Numscript.tla: source-level semantics + laws) checked and enumerated by TLC; every enumerated case replayed through the real compiler+VM; TLC evaluates the laws and equality with the reference on the real outcomes (NumscriptObs.tla)"
+NS_NOTE = ("Bounded: program families of NumscriptGen.tla (sources and destinations nested to depth 1-2 exhaustively, one level deeper by RandomSubset; amounts 0..7; balances incl. 0 and negative); "
+           "values beyond 64 bits are reached by re-running portion-free cases with every amount multiplied by factors around 2^61..2^70 and judging those outcomes with the same predicates. "
+           "Postings are compared after dropping zero-amount postings and merging adjacent postings with identical endpoints. Trusted: the AST->text printer of the harness, TLC.")
+def ns(what):
+    return {"category": "model_checking", "design_ref": "DESIGN.md §4 Numscript family", "note": NS_NOTE, "technique": NS_TECH,
+            "text": what + " Numscript.tla defines what a program text means (fundings drained front to back, kept amounts withheld from the last sources, portions floored with leftover units to the earliest entries, static rules); TLC checks the laws on this reference for every enumerated case and emits the cases; each is rendered to Numscript and executed by the real compiler and VM (twice, and scaled); TLC judges every real outcome."}
 CHECKS = {
+ "C01": ns("Decides that replaying the postings of an accepted script in order never takes a non-world account below minus its granted overdraft, and that an uncoverable send rejects the whole transaction with insufficient funds."),
+ "C03": ns("Decides per-destination and per-source totals (caps, shares, kept amounts, ordered draining) and the moved amount of every send against the reference semantics; no negative posting."),
+ "C08": ns("Decides exact equality (fixed normalisation) of postings and outcome class between the real compile+run and the reference semantics, that statically invalid programs are refused and not run, and exactness on >64-bit values."),
+ "C12": ns("Decides that every enumerated program (well-formed or not) terminates without panic or hang in a defined outcome class and gives the same outcome when executed again."),
  "C15": {"category": "model_checking", "design_ref": "DESIGN.md §4 C15",
          "text": "Lock.tla (one action per critical section of DefaultLocker) is model-checked exhaustively by TLC for 3-4 requests with arbitrary read/write sets over 2 accounts (exclusion, no leaked lock, quiescent progress, and liveness under fairness); TLC-generated behaviours are replayed on the real DefaultLocker under a gated scheduler (grant/cancel coincidences repeated so that both select branches are taken) and free-running executions are recorded through hooks; TLC evaluates the C15 predicates on the observed lock tables (LockObs.tla) and validates the traces against the specification (LockTrace.tla).",
          "note": "Bounded: 3-4 requests, 2-3 accounts. Liveness is established on the specification; on the code it is checked as quiescent progress and absence of hung Lock calls. Trusted: the verif hooks in lock.go, the harness scheduler, TLC.",
